@@ -1,7 +1,245 @@
-/- Driver glue for C03: case lines `c03.<sub> <args…> | <impl…>` (stub until the property is built) -/
+/-
+  Driver glue for C03. Case line:
+    c03.hist <mode> <workers> <buf> <procs> <kill> <nlines> (<id> <streamhex> <linehex>)… <nsteps> <step>… | <records…> lost <n> (<id> <cls>)…
+  The implementation result is the observed trace. The records are replayed through
+  `FileRestart.step?`: every record becomes one or a few model ops (a `readTurn` whose chunk is
+  the next bytes of the file, a `deliver`/`ack`/`commit` of the matching event, …); what the
+  implementation *observed* (PassEvent results, sequence numbers, ids, saved offsets, idleness) must
+  be what the model computes, otherwise the replay stops with `reject@<index> <record>`.
+  Saves are not logged: the offsets file found after a kill is matched against the job's offsets
+  after each step (a `save` op is inserted where they agree).
+  M = the records (when every one was accepted) + the lost-line summary computed by the Spec oracle.
+-/
 import FileD.Prelude.Tok
+import FileD.Model.FileRestart
+import FileD.Spec.C03
 namespace FileD.DrvC03
+open FileD Tok FileD.FileRestart FileD.SpecC03
 
-def handle (_cmd : String) (_args _impl : List String) : Option (String × String) := none
+/-! ### parsing -/
+
+def parseTable : Nat → List String → Option (Table × List String)
+  | 0, ts => some ([], ts)
+  | n+1, a :: b :: c :: ts => do
+    let id ← nat? a
+    let st ← bytes? b
+    let d ← bytes? c
+    let (rest, r) ← parseTable n ts
+    pure ((id, st, d) :: rest, r)
+  | _, _ => none
+
+def parseOffs : Nat → List String → Option (Offsets × List String)
+  | 0, ts => some ([], ts)
+  | n+1, a :: b :: ts => do
+    let st ← bytes? a
+    let o ← nat? b
+    let (rest, r) ← parseOffs n ts
+    pure ((st, o) :: rest, r)
+  | _, _ => none
+
+/-- records up to the `lost` summary; returns (records, summary tokens) -/
+def parseRecs : Nat → List String → List Rec × List String
+  | 0, ts => ([.bad "fuel"], ts)
+  | fuel+1, ts =>
+    let one (r : Rec) (rest : List String) := let (rs, tl) := parseRecs fuel rest; (r :: rs, tl)
+    match ts with
+    | [] => ([], [])
+    | "lost" :: rest => ([], "lost" :: rest)
+    | "up" :: rest => one .up rest
+    | "scan" :: rest => one .scan rest
+    | "idle" :: rest => one .idle rest
+    | "stuck" :: rest => one .stuck rest
+    | "crash" :: rest => one .crash rest
+    | "died" :: rest => one .died rest
+    | "new" :: a :: rest => match nat? a with | some f => one (.new f) rest | none => ([.bad "new"], [])
+    | "disc" :: a :: rest => match nat? a with | some f => one (.disc f) rest | none => ([.bad "disc"], [])
+    | "trunc" :: a :: rest => match nat? a with | some f => one (.trunc f) rest | none => ([.bad "trunc"], [])
+    | "app" :: a :: b :: rest =>
+      match nat? a, bytes? b with | some f, some d => one (.app f d) rest | _, _ => ([.bad "app"], [])
+    | "ren" :: a :: b :: rest =>
+      match nat? a, nat? b with | some f, some g => one (.ren f g) rest | _, _ => ([.bad "ren"], [])
+    | "eof" :: a :: b :: rest =>
+      match nat? a, nat? b with | some f, some o => one (.eof f o) rest | _, _ => ([.bad "eof"], [])
+    | "in" :: a :: b :: c :: rest =>
+      match nat? a, nat? b, bool? c with
+      | some f, some o, some p => one (.inp f o p) rest | _, _, _ => ([.bad "in"], [])
+    | "com" :: a :: b :: c :: rest =>
+      match nat? a, nat? b, nat? c with
+      | some f, some o, some id => one (.com f o id) rest | _, _, _ => ([.bad "com"], [])
+    | "ack" :: a :: b :: c :: rest =>
+      match nat? a, nat? b, nat? c with
+      | some f, some o, some id => one (.ack f o id) rest | _, _, _ => ([.bad "ack"], [])
+    | "out" :: a :: b :: c :: d :: rest =>
+      match nat? a, nat? b, nat? c, nat? d with
+      | some f, some o, some q, some id => one (.out f o q id) rest | _, _, _, _ => ([.bad "out"], [])
+    | "saved" :: a :: b :: rest =>
+      match nat? a, nat? b with
+      | some f, some n =>
+        match parseOffs n rest with
+        | some (o, r) => one (.saved f o) r
+        | none => ([.bad "saved"], [])
+      | _, _ => ([.bad "saved"], [])
+    | t :: _ => ([.bad t], [])
+
+def renderRec : Rec → String
+  | .new f => s!"new {f}" | .app f b => s!"app {f} {Hex.enc b}" | .ren f g => s!"ren {f} {g}"
+  | .trunc f => s!"trunc {f}" | .up => "up" | .disc f => s!"disc {f}" | .scan => "scan"
+  | .inp f o p => s!"in {f} {o} {ofBool p}" | .out f o q id => s!"out {f} {o} {q} {id}"
+  | .ack f o id => s!"ack {f} {o} {id}" | .com f o id => s!"com {f} {o} {id}" | .eof f n => s!"eof {f} {n}"
+  | .idle => "idle" | .stuck => "stuck" | .crash => "crash" | .died => "died"
+  | .saved f o => unwords (s!"saved {f} {o.length}" :: o.map (fun p => s!"{Hex.enc p.1} {p.2}"))
+  | .bad t => s!"bad:{t}"
+
+def recName : Rec → String
+  | .new _ => "new" | .app _ _ => "app" | .ren _ _ => "ren" | .trunc _ => "trunc" | .up => "up"
+  | .disc _ => "disc" | .scan => "scan" | .inp _ _ _ => "in" | .out _ _ _ _ => "out" | .ack _ _ _ => "ack"
+  | .com _ _ _ => "com" | .eof _ _ => "eof" | .idle => "idle" | .stuck => "stuck" | .crash => "crash"
+  | .died => "died" | .saved _ _ => "saved" | .bad _ => "bad"
+
+/-! ### replay -/
+
+def insertOff (x : Stream × Nat) : Offsets → Offsets
+  | [] => [x]
+  | y :: ys => if x.1 < y.1 ∨ x.1 = y.1 then x :: y :: ys else y :: insertOff x ys
+
+def sortOffs (o : Offsets) : Offsets := o.foldr insertOff []
+
+structure R where
+  s    : State
+  inos : List Nat
+  obs  : List (Nat × Offsets)     -- the offsets file found after the kill that ends this run
+  ackedRun : List Ev := []        -- events acked in this run (`State.acked` spans all runs)
+
+def savedPrefix : List Rec → List (Nat × Offsets)
+  | .saved f o :: rest => (f, sortOffs o) :: savedPrefix rest
+  | _ => []
+
+/-- the offsets file observed after the next crash (the `saved` records that follow it) -/
+def lookahead : List Rec → List (Nat × Offsets)
+  | [] => []
+  | .crash :: rest => savedPrefix rest
+  | _ :: rest => lookahead rest
+
+/-- insert `save` ops wherever a job's offsets equal the snapshot observed after the kill -/
+def autoSave (cfg : Cfg) (r : R) : R :=
+  r.obs.foldl (fun r (f, o) =>
+    match r.s.jobs f with
+    | some j => if sortOffs j.offsets == o then
+        match step? cfg r.s (.save f) with | some s' => { r with s := s' } | none => r
+      else r
+    | none => r) r
+
+def app1 (cfg : Cfg) (r : R) (op : Op) : Option R :=
+  (step? cfg r.s op).map fun s' => autoSave cfg { r with s := s' }
+
+/-- truncation detection (`processEOF`) when the file is shorter than the job's offset -/
+def prepare (cfg : Cfg) (r : R) (f : Nat) : Option R := do
+  let fl ← r.s.files f
+  let j ← r.s.jobs f
+  if j.w.curOffset > fl.content.length then app1 cfg r (.readTurn f []) else pure r
+
+def readUpto (cfg : Cfg) (r : R) (f upto : Nat) : Option R := do
+  let fl ← r.s.files f
+  let j ← r.s.jobs f
+  if upto < j.w.curOffset || upto > fl.content.length then none
+  else app1 cfg r (.readTurn f [(fl.content.drop j.w.curOffset).take (upto - j.w.curOffset)])
+
+def persistedOk (r : R) : Bool :=
+  r.inos.all fun f =>
+    (r.s.persisted f).map sortOffs == (r.obs.find? (·.1 == f)).map (·.2)
+
+/-- events that are acked, still in flight and the oldest of their stream (candidates for a commit
+    whose `com` record was not written because the process died inside `Commit`) -/
+def dangling (r : R) : List Ev :=
+  r.s.inflight.filter fun e => r.ackedRun.contains e && decide (oldest r.s e)
+
+def stepRec (cfg : Cfg) (t : Table) (r : R) (rest : List Rec) : Rec → Option R
+  | .new f => (app1 cfg r (.create f f)).map fun r => { r with inos := r.inos ++ [f] }
+  | .app f b =>
+    if b.getLast? = some NL then app1 cfg r (.append f b) else app1 cfg r (.appendPartial f b)
+  | .ren f g => (app1 cfg r (.renameRotate f (1000 + g) g)).map fun r => { r with inos := r.inos ++ [g] }
+  | .trunc f => app1 cfg r (.truncate f)
+  | .up => (app1 cfg { r with obs := lookahead rest } .restart)
+  | .disc f => app1 cfg r (.discover f)
+  | .scan => app1 cfg r .scanDone
+  | .inp f off pass => do
+    let r ← prepare cfg r f
+    let before := r.s.inLog
+    let r ← readUpto cfg r f off
+    if r.s.inLog == before ++ [(f, off, pass)] then pure r else none
+  | .eof f size => do
+    let r ← prepare cfg r f
+    let fl ← r.s.files f
+    if fl.content.length ≠ size then none
+    let before := r.s.inLog
+    let r ← readUpto cfg r f size
+    let j ← r.s.jobs f
+    if r.s.inLog == before && j.w.curOffset == size then pure r else none
+  | .out f off seq id => do
+    let e ← r.s.inflight.find? fun e =>
+      e.ino == f && e.off == off && e.seq == seq && idOf t e.data == some id && !r.s.delivered.contains e
+    app1 cfg r (.deliver e)
+  | .ack f off id => do
+    let e ← r.s.delivered.find? fun e =>
+      e.ino == f && e.off == off && idOf t e.data == some id && !r.ackedRun.contains e
+    (app1 cfg r (.ack e)).map fun r => { r with ackedRun := e :: r.ackedRun }
+  | .com f off id => do
+    let e ← (dangling r).find? fun e => e.ino == f && e.off == off && idOf t e.data == some id
+    let r ← app1 cfg r (.commit e)
+    if r.s.panicked then none else pure r
+  | .idle =>
+    if r.s.up && !r.s.panicked &&
+       r.inos.all (fun f => match r.s.files f, r.s.jobs f with
+          | some fl, some j => j.w.curOffset == fl.content.length | _, _ => false) &&
+       r.s.inflight.all (fun e => r.s.delivered.contains e)
+    then some r else none
+  | .died =>
+    -- the process died inside the Commit of an acked event
+    (dangling r).findSome? fun e =>
+      match step? cfg r.s (.commit e) with
+      | some s' => if s'.panicked then some { r with s := s' } else none
+      | none => none
+  | .crash =>
+    -- entries of files without a job are dropped by a save
+    let r := r.inos.foldl (fun r f =>
+      if (r.s.persisted f).isSome && (r.obs.find? (·.1 == f)).isNone && (r.s.jobs f).isNone then
+        match step? cfg r.s (.saveAbsent f) with | some s' => { r with s := s' } | none => r
+      else r) r
+    let r? : Option R :=
+      if persistedOk r then some r
+      else (dangling r).findSome? fun e =>
+        match app1 cfg r (.commit e) with
+        | some r' => if persistedOk r' then some r' else none
+        | none => none
+    r?.bind fun r => (app1 cfg r .crash).map fun r => { r with ackedRun := [] }
+  | .saved _ _ => some r
+  | .stuck => none
+  | .bad _ => none
+
+def replay (cfg : Cfg) (t : Table) : R → Nat → List Rec → Option (Nat × Rec)
+  | _, _, [] => none
+  | r, i, rc :: rest =>
+    match stepRec cfg t r rest rc with
+    | some r' => replay cfg t r' (i + 1) rest
+    | none => some (i, rc)
+
+def renderLost (l : List (Option Nat × Nat)) : String :=
+  unwords (s!"lost {l.length}" :: l.map fun (id, c) =>
+    (match id with | some n => toString n | none => "-1") ++ " " ++ toString c)
+
+def handle (cmd : String) (args impl : List String) : Option (String × String) :=
+  if cmd ≠ "c03.hist" then none else
+  match args with
+  | _mode :: _w :: _b :: _p :: _kill :: nl :: rest => do
+    let n ← nat? nl
+    let (t, _) ← parseTable n rest
+    let (recs, _summary) := parseRecs (impl.length + 1) impl
+    let cfg := cfgOf t
+    let lostS := renderLost (lost t (observe recs))
+    let m := match replay cfg t ⟨init, [], [], []⟩ 0 recs with
+      | none => unwords (recs.map renderRec ++ [lostS])
+      | some (i, rc) => s!"reject@{i} {recName rc} {lostS}"
+    pure (m, verdict t recs)
+  | _ => none
 
 end FileD.DrvC03
